@@ -171,6 +171,17 @@ CHECKS = {
         note='PARTIAL: from_str(str(m)) = m is not yet a theorem (oracle + correspondence only); eval, the full int()/float() grammar and float printing are CPython\'s.',
         technique='Lean 4 proof (shape invariant of parsed keyword values through the checked constructor; induction over lines) over a hand model; differential correspondence + eval-based oracle',
         design='5 C14'),
+    'C10': dict(
+        text='Interleaving semantics of a lock-protected port at shared-access granularity (lock acquire/release, deque test/pop/append) for ANY '
+             'number of threads running ANY programs of send/poll under ANY schedule; theorems by invariant + induction over the schedule: '
+             'no IndexError fault, mutual exclusion, received ++ queued = sent at every moment (at-most-once, FIFO, nothing lost, '
+             'exactly-once at quiescence), received is a prefix of sent. Correspondence: real port classes on real threads under a '
+             'deterministic scheduler that switches only at those shared accesses; all schedules with <= 2 (3) preemptions of 17 small programs '
+             'on EchoPort, a byte-wise device double, IOPort and MultiPort + random schedules; EchoPort executions replayed step for step through the model.',
+        note='Theorems cover the locked EchoPort-like port (send / non-blocking receive); the device wire, IOPort, MultiPort and blocking receive rest on the '
+             'schedule enumeration with the oracle. Atomicity of single deque/RLock operations under the GIL is assumed; pre-emption inside a statement between shared accesses is not explored.',
+        technique='Lean 4 proof (inductive invariant of an interleaving step relation over all schedules) + stateless bounded-preemption schedule enumeration on real threads with model replay',
+        design='5 C10'),
 }
 
 PENDING = ['C02', 'C03', 'C04', 'C05', 'C06', 'C07', 'C08', 'C09', 'C10', 'C11', 'C12', 'C13', 'C14', 'C15',
